@@ -101,6 +101,20 @@ class C01(Prop):
             sa2 = G.spell(rng, a)
             if not (Version(sa2) == va and hash(Version(sa2)) == hash(va)):
                 return False, f"{sa!r} and {sa2!r} spell the same version but are not equal/hash-equal"
+            # the order is one of *values*: a copy, a deep copy or an unpickled Version takes the place of the original, and an
+            # object that has been hashed / compared / rendered before answers the same
+            import copy
+            import pickle
+            for how, clone in (("copy.copy", copy.copy), ("copy.deepcopy", copy.deepcopy),
+                               ("pickle round trip", lambda v: pickle.loads(pickle.dumps(v, pickle.HIGHEST_PROTOCOL)))):
+                ca, cb = clone(va), clone(vb)
+                if six(ca, vb) != want or six(va, cb) != want or six(ca, cb) != want:
+                    return False, f"{sa!r} vs {sb!r} through {how}: {six(ca, vb)}/{six(va, cb)}/{six(ca, cb)}, PEP 440 says {want}"
+                if not (ca == va and hash(ca) == hash(va) and len({ca, va}) == 1):
+                    return False, f"{how} of Version({sa!r}) is not equal / hash-equal to the original"
+            str(va), repr(vb), hash(va), va.public, sorted([va, vb])
+            if six(va, vb) != want:
+                return False, f"{sa!r} vs {sb!r} after the objects were rendered/hashed/sorted: {six(va, vb)}, PEP 440 says {want}"
             return True, ""
         if law == "transitive_total":
             vs = [Version(G.spell(rng, _norm(inp[k]))) for k in "abc"]
